@@ -260,7 +260,17 @@ class DocGen:
 # programs
 # ---------------------------------------------------------------------------------------------
 STAGE1 = ['new', 'add', 'set', 'del', 'rmannot', 'prune']
-WEIGHTS = {'new': 2, 'add': 4, 'set': 3, 'del': 5, 'rmannot': 2, 'prune': 2}
+ALL_OPS = STAGE1 + ['delpages', 'renumber', 'compress', 'decompress', 'ccs', 'cpc', 'apc', 'atpc', 'gocr', 'addx', 'addgs', 'content']
+WEIGHTS = {'new': 2, 'add': 3, 'set': 3, 'del': 4, 'rmannot': 2, 'prune': 2, 'delpages': 3, 'renumber': 1, 'compress': 2,
+           'decompress': 2, 'ccs': 2, 'cpc': 4, 'apc': 4, 'atpc': 2, 'gocr': 2, 'addx': 4, 'addgs': 3, 'content': 3}
+
+TINY_OPS = [('q', []), ('Q', []), ('BT', []), ('ET', []), ('Do', [('n', b'Im1')]), ('w', [('i', 2)]), ('m', [('i', 0), ('i', 0)])]
+
+
+def encode_tiny(ops):
+    def w(o):
+        return str(o[1]).encode() if o[0] == 'i' else b'/' + o[1]
+    return b'\n'.join(b''.join(w(o) + b' ' for o in args) + opr.encode() for opr, args in ops)
 
 
 class ProgGen:
@@ -344,6 +354,39 @@ class ProgGen:
             return L('rmannot', OID(*id))
         if k == 'prune':
             return L('prune')
+        if k == 'delpages':
+            n = len(g.pages)
+            nums = [rng.randint(1, n + 1) for _ in range(rng.choice([1, 1, 1, 2, 3]))]
+            if rng.random() < 0.1:
+                nums.append(rng.choice([0, 99, nums[0]]))
+            return L('delpages', *[str(x) for x in nums])
+        if k in ('renumber', 'compress', 'decompress'):
+            if k == 'renumber':
+                self.cur_max = len(self.ids)
+            return L(k)
+        def page():
+            return rng.choice(g.pages) if g.pages and rng.random() < 0.85 else self.any_id()
+        if k == 'ccs':
+            id = rng.choice(g.streams) if g.streams and rng.random() < 0.8 else self.any_id()
+            c = content_bytes(rng); g.plains.add(c)
+            return L('ccs', OID(*id), xb(c))
+        if k in ('cpc', 'apc'):
+            c = content_bytes(rng); g.plains.add(c)
+            self.allocated()
+            return L(k, OID(*page()), xb(c))
+        if k == 'atpc':
+            ops = [rng.choice(TINY_OPS) for _ in range(rng.randint(0, 3))]
+            g.plains.add(encode_tiny(ops))
+            self.allocated()
+            return L('atpc', OID(*page()), *[L('op', xb(o), *[o_sx(a) for a in args]) for o, args in ops])
+        if k == 'gocr':
+            return L('gocr', OID(*page()))
+        if k in ('addx', 'addgs'):
+            nm = rng.choice([b'Im1', b'Im9', b'GS0', b'GS7', b'X', b'F1'])
+            x = rng.choice(g.xobjs) if g.xobjs and rng.random() < 0.6 else self.any_id()
+            return L(k, OID(*page()), xb(nm), OID(*x))
+        if k == 'content':
+            return L('content', OID(*page()))
         raise ValueError(k)
 
 
@@ -352,7 +395,7 @@ def orc_sx(tbl):
 
 
 def gen_program(rng, kinds, maxlen=40):
-    g = DocGen(rng).build()
+    g = DocGen(rng, allow_filters=True).build()
     pg = ProgGen(rng, g)
     n = rng.choice([1, 2, 3, 5, 8, 12, 20, 30, maxlen])
     n = rng.randint(1, n)
@@ -364,13 +407,55 @@ def case_line(doc_sx, ops, tbl=()):
     return L('case', doc_sx, L('ops', *ops), orc_sx(tbl))
 
 
+def oracle_answers(plains):
+    """flate2's own deflate output (ZlibEncoder, Compression::best) for every content that could be compressed"""
+    qs = sorted(p for p in plains if len(p) > 27)
+    if not qs:
+        return {}
+    exe, log = vlib.build_harness('c09')
+    if exe is None:
+        raise RuntimeError('harness build failed: ' + log[-500:])
+    outs = vlib.run_lines(exe, [L('z', xb(p)) for p in qs], timeout=300, args=['--oracle'])
+    ans = {}
+    for p, o in zip(qs, outs):
+        if not o.startswith('x'):
+            raise RuntimeError('oracle mode answered %r' % o[:80])
+        ans[p] = bytes.fromhex(o[1:])
+    return ans
+
+
 def gen_cases(rng, tier):
     n = 200 if tier == 'quick' else 5000
-    cases = []
+    progs = []
     for _ in range(n):
-        g, ops = gen_program(rng, STAGE1)
-        cases.append((case_line(g.sx(), ops), {'kind': 'prog', 'nontrivial': len(ops) >= 2}))
+        r = rng.random()
+        kinds = STAGE1 if r < 0.2 else ALL_OPS
+        progs.append(gen_program(rng, kinds))
+    z = oracle_answers(set().union(*[g.plains for g, _ in progs]))
+    cases = []
+    for g, ops in progs:
+        tbl = []
+        for p in sorted(g.plains):
+            if p in z:
+                tbl.append(('z', p, z[p]))
+                tbl.append(('f', z[p], p))
+        for c, p in sorted(g.inflate.items()):
+            tbl.append(('f', c, p))
+        cases.append((case_line(g.sx(), ops, tbl), {'kind': 'prog', 'nontrivial': len(ops) >= 2}))
     return cases
+
+
+def classify(line, tags, model_out, impl_out, verdict):
+    """a failure is a known finding when EVERY reported failure carries the tag of one (the harness decides the
+    tag by evaluating the finding's class predicate on the document before the failing call)"""
+    import re
+    if not verdict.startswith('FAIL') or model_out != impl_out:
+        return None
+    parts = verdict[5:].split('; step ')
+    found = [re.search(r'^(?:step )?\d+: \[(C11-[a-z-]+)\]', p if p.startswith('step') else 'step ' + p) for p in parts]
+    if all(found):
+        return found[0].group(1)
+    return None
 
 
 # ---------------------------------------------------------------------------------------------
@@ -424,6 +509,7 @@ SPEC = {
     'bin': 'c11',
     'gen_cases': gen_cases,
     'shrink': shrink,
+    'classify': classify,
     'rule': 'random programs (length 1-40) of editing calls over generated documents (page trees of depth <= 4 with own / '
             'inherited / indirect resources, content as reference / array / indirect array / shared stream, annotations, '
             'unreachable objects, indirect-reference objects, sparse ids, max_id at / above / below the largest id and at '
